@@ -1,5 +1,5 @@
 (* Executable model (over Q) of fit_spline_1d: the constraint system A x = b, the cost blocks and the KKT
-   system, transcribed from /repo/include/smooth/spline/detail/fit_impl.hpp:61-243 and the compile-time basis
+   system, transcribed from /repo/include/smooth/spline/detail/fit_impl.hpp:61-223 and the compile-time basis
    algebra of /repo/include/smooth/polynomial/basis.hpp.  NO proofs in this file (see Proofs/C14_Fit1d.v). *)
 From Coq Require Import QArith List ZArith Bool Arith.
 Import ListNotations.
@@ -55,7 +55,7 @@ Fixpoint bernstein_basis (K : nat) : list (list Q) :=
 Definition mmul (ncolsB : nat) (A B : list (list Q)) : list (list Q) :=
   map (fun r => map (fun c => qdot r (mcol B c)) (seq 0 ncolsB)) A.
 
-(* fit_impl.hpp:83-87 *)
+(* fit_impl.hpp:81-85 *)
 Definition U0tB (K D : nat) : list (list Q) := mmul (K + 1) (monomial_derivatives K D 0) (bernstein_basis K).
 Definition U1tB (K D : nat) : list (list Q) := mmul (K + 1) (monomial_derivatives K D 1) (bernstein_basis K).
 
@@ -81,13 +81,13 @@ Definition FixedDerCubic (P1 P2 : nat) : spec :=             (* fit.hpp:76-96 *)
 Definition MinDerivative (K od P : nat) : spec :=             (* fit.hpp:105-136: LeftDeg = RghtDeg = 1..P-1 *)
   {| Kdeg := K; InnCnt := Z.of_nat P; OptDeg := Some od; LeftDeg := seq 1 (P - 1); RghtDeg := seq 1 (P - 1) |}.
 
-(* fit_impl.hpp:21-30 splinespec_max_deriv *)
+(* fit_impl.hpp:20-29 splinespec_max_deriv *)
 Definition maxderiv (s : spec) : nat :=
   fold_left Nat.max (RghtDeg s) (fold_left Nat.max (LeftDeg s) (Z.to_nat (Z.max 0 (InnCnt s)))).
 Definition inn_ge0 (s : spec) : bool := (0 <=? InnCnt s)%Z.
 Definition inn_cnt (s : spec) : nat := Z.to_nat (InnCnt s).
 
-(* ------------------------------------------------------------------ the constraint rows (fit_impl.hpp:96-160) *)
+(* ------------------------------------------------------------------ the constraint rows (fit_impl.hpp:93-157) *)
 (* a sparse row: list of (first column, coefficients written into consecutive columns) - one entry per `for j` loop *)
 Definition srow := list (nat * list Q).
 
@@ -105,9 +105,9 @@ Section Rows.
   Let U1 := U1tB K D.
   Definition blk (i : nat) : nat := i * (Kdeg s + 1).
 
-  (* fit_impl.hpp:121-125  curve beg derivative constraints *)
+  (* fit_impl.hpp:119-123  curve beg derivative constraints *)
   Definition rows_left : list srow := map (fun p => [(0%nat, nth p U0 [])]) (LeftDeg s).
-  (* fit_impl.hpp:127-135  interval beg + end value constraint *)
+  (* fit_impl.hpp:125-133  interval beg + end value constraint *)
   Fixpoint rows_val (i : nat) (dx : list Q) : list srow :=
     match dx with
     | [] => []
@@ -119,7 +119,7 @@ Section Rows.
     | [] => []
     | d :: dx' => 0 :: (if inn_ge0 s then [d] else []) ++ b_val dx'
     end.
-  (* fit_impl.hpp:137-149  inner derivative continuity constraint, zip(iota(0,N-1), dt, dt|drop(1)) *)
+  (* fit_impl.hpp:135-146  inner derivative continuity constraint, zip(iota(0,N-1), dt, dt|drop(1)) *)
   Definition cont_row (k : nat) (dt dtn : Q) (d : nat) : srow :=
     let fac1 := 1 / qpow dt d in
     let fac2 := 1 / qpow dtn d in
@@ -134,13 +134,13 @@ Section Rows.
     | _ :: ((_ :: _) as tl) => qzeros (inn_cnt s) ++ b_cont tl
     | _ => []
     end.
-  (* fit_impl.hpp:151-157  curve end derivative constraints *)
+  (* fit_impl.hpp:148-154  curve end derivative constraints *)
   Definition rows_right (N : nat) : list srow := map (fun p => [(blk (N - 1), nth p U1 [])]) (RghtDeg s).
 
-  (* N = min(size dt, size dx)  (fit_impl.hpp:68) *)
+  (* N = min(size dt, size dx)  (fit_impl.hpp:69) *)
   Definition npts (dt dx : list Q) : nat := Nat.min (length dt) (length dx).
-  Definition n_coef (N : nat) : nat := (Kdeg s + 1) * N.                                    (* :95 *)
-  Definition n_eq (N : nat) : nat :=                                                        (* :96-101 *)
+  Definition n_coef (N : nat) : nat := (Kdeg s + 1) * N.                                    (* :93 *)
+  Definition n_eq (N : nat) : nat :=                                                        (* :94-99 *)
     length (LeftDeg s) + N + (if inn_ge0 s then N else 0)
     + (if (0 <? InnCnt s)%Z then (N - 1) * inn_cnt s else 0) + length (RghtDeg s).
 
@@ -150,7 +150,7 @@ Section Rows.
   Definition b_vec (dt dx lv rv : list Q) : list Q :=
     let N := npts dt dx in
     lv ++ b_val (firstn N dx) ++ b_cont (firstn N dt) ++ rv.
-  (* the matrix A as the code assembles it (dense view; A.prune(1e-9) at :159 only drops entries of magnitude
+  (* the matrix A as the code assembles it (dense view; A.prune(1e-9) at :156 only drops entries of magnitude
      <= 1e-21, which are zero for every dt in the property's range, so pruning does not change the matrix) *)
   Definition A_dense (dt dx : list Q) : list (list Q) :=
     map (densify (n_coef (npts dt dx))) (A_rows dt dx).
@@ -162,10 +162,10 @@ Section Rows.
   Definition residual (dt dx lv rv x : list Q) : list Q :=
     qsub_list (map (fun r => srow_dot r x) (A_rows dt dx)) (b_vec dt dx lv rv).
 
-  (* ---------------------------------------------------------------- cost + KKT system (fit_impl.hpp:167-241) *)
-  Definition reg : Q := 1 # 1000000.                                       (* the 1e-6 on the diagonal, :208 *)
-  Definition q_block (od : nat) (dt : Q) : list (list Q) :=                 (* :204-211 *)
-    let fac := 1 / qpow dt (2 * D - 1) in                                  (* pow(dt, 1 - 2*int(D)) *)
+  (* ---------------------------------------------------------------- cost + KKT system (fit_impl.hpp:165-221) *)
+  Definition reg : Q := 1 # 1000000.                                       (* the 1e-6 on the diagonal, :202 *)
+  Definition q_block (od : nat) (dt : Q) : list (list Q) :=                 (* :198-205 *)
+    let fac := 1 / qpow dt (2 * D - 1) in                                  (* :199 pow(dt, 1 - 2*int(D)) *)
     let P := cost_P K od in
     map (fun ki => map (fun kj => (if (ki =? kj)%nat then reg else 0) + fac * mget P ki kj) (seq 0 (K + 1)))
         (seq 0 (K + 1)).
@@ -176,9 +176,14 @@ Section Rows.
     end.
   Fixpoint map2app (X Y : list (list Q)) : list (list Q) :=
     match X, Y with r :: X', t :: Y' => (r ++ t) :: map2app X' Y' | _, _ => [] end.
-  (* the symmetric matrix SimplicialLDLT<Lower> factorises: it reads the lower triangle, which the code fills
-     with the (symmetric) cost blocks (:204-211) and A (:213-217); the implied upper-right block is A^T.
-       H = [ Q  A^T ; A  0 ],  rhs = [0 ; b]      (:188-191, :221-223) *)
+  (* the full (N_coef + N_eq) x (N_coef + N_eq) matrix the code assembles (:190-214):
+       - the diagonal cost blocks, H(i(K+1)+ki, i(K+1)+kj) (:198-205);
+       - for every stored entry (r, col, v) of A BOTH  H(N_coef + r, col) = v  (:209)  and  H(col, N_coef + r) = v
+         (:210), i.e. the lower-left block is A and the upper-right block is A^T (written explicitly since commit
+         7781770; SparseLU reads the whole matrix, not one triangle);
+       - nothing in the lower-right N_eq x N_eq block.
+       H = [ Q  A^T ; A  0 ],  rhs = [0 ; b]      (:216-218)
+     H_pattern / H.reserve (:192-196) only pre-allocate storage and do not influence the values. *)
   Definition kkt_H (od : nat) (dt dx : list Q) : list (list Q) :=
     let N := npts dt dx in
     let A := A_dense dt dx in
@@ -187,12 +192,14 @@ Section Rows.
   Definition kkt_rhs (dt dx lv rv : list Q) : list Q :=
     qzeros (n_coef (npts dt dx)) ++ b_vec dt dx lv rv.
 
-  (* fit_spline_1d itself, relative to the two Eigen solvers (arguments; their contract "returns a solution of
-     the system" is a hypothesis of the theorems and is what the run-time correspondence checks) *)
-  Definition fit_spline_1d (lu_solve ldlt_solve : list (list Q) -> list Q -> list Q) (dt dx lv rv : list Q) : list Q :=
+  (* fit_spline_1d itself, relative to Eigen::SparseLU (the argument lu_solve; both branches instantiate the same
+     solver, SparseLU<SparseMatrix<double>>, on different matrices: :162-163 and :220-221).  Its contract "returns
+     a solution of the system it was given" is a hypothesis of the theorems and is what the run-time correspondence
+     checks. *)
+  Definition fit_spline_1d (lu_solve : list (list Q) -> list Q -> list Q) (dt dx lv rv : list Q) : list Q :=
     match OptDeg s with
-    | None => lu_solve (A_dense dt dx) (b_vec dt dx lv rv)                                     (* :162-166 *)
-    | Some od => firstn (n_coef (npts dt dx)) (ldlt_solve (kkt_H od dt dx) (kkt_rhs dt dx lv rv))  (* :225-226 *)
+    | None => lu_solve (A_dense dt dx) (b_vec dt dx lv rv)                                     (* :159-164 *)
+    | Some od => firstn (n_coef (npts dt dx)) (lu_solve (kkt_H od dt dx) (kkt_rhs dt dx lv rv))  (* :220-221 *)
     end.
 End Rows.
 
